@@ -55,6 +55,9 @@ def run_case(c, rnd, tmp):
             if feats == "int_labels":
                 # feature columns labelled by integers (not in increasing order): accepted end to end, must come back as such
                 df = df.rename(columns={f"Y{i}": [10, 2, 7, 5][i] for i in range(dim)})
+            if feats == "odd_names":
+                # names as they come from file headers: surrounding blanks, inner blank, a slash, a dot, non-ASCII letters
+                df = df.rename(columns={f"Y{i}": [" MMSE ", "p-tau/A\u03b2 42", "adas.cog\t", "x y"][i] for i in range(dim)})
             if feats == "named":
                 df = df.rename(columns={f"Y{i}": f"feat_{chr(97 + i)}" for i in range(dim)})
             data = Data.from_dataframe(df, data_type="joint") if kind == "joint" else Data.from_dataframe(df)
